@@ -215,7 +215,24 @@ fn check_text(j: &Value, tab: &str, term: &str) -> Option<String> {
   if !tiers.is_empty() && get("announce list") != Some(tiers) {
     return Some("tab row `announce list` differs from JSON".into());
   }
-  // terminal rendering: same values, sizes humanised
+  // terminal rendering: one row per value, each on a line of its own - also when the value is the empty string
+  for (label, key) in [("Name", "name"), ("Comment", "comment"), ("Created By", "created_by"), ("Source", "source")] {
+    if j.get(key).and_then(|v| v.as_str()) == Some("") && !term.lines().any(|l| l.trim() == label) {
+      return Some(format!("--terminal rendering has no line of its own for the empty `{key}` (rows run into one another?)"));
+    }
+  }
+  // (no line may start with two labels glued together)
+  let labels = ["Name", "Comment", "Creation Date", "Created By", "Source", "Info Hash", "Torrent Size", "Content Size", "Private", "Tracker", "Announce List", "Update URL", "DHT Nodes", "Piece Size", "Piece Count", "File Count", "Files"];
+  for l in term.lines() {
+    let t = l.trim_start();
+    if let Some(first) = labels.iter().find(|x| t.starts_with(**x)) {
+      let rest = &t[first.len()..];
+      if labels.iter().any(|x| rest.starts_with(*x)) && !first.starts_with("Creat") {
+        return Some(format!("--terminal rendering glues two rows into one line: {l:?}"));
+      }
+    }
+  }
+  // same values, sizes humanised
   for key in ["name", "comment", "created_by", "source", "info_hash", "tracker", "update_url"] {
     if let Some(s) = j.get(key).and_then(|v| v.as_str()) {
       if !s.is_empty() && !term.contains(s) {
